@@ -17,6 +17,7 @@ pub mod c15;
 pub mod c16;
 pub mod c17;
 pub mod c18;
+pub mod c19;
 pub mod c20;
 
 pub fn run(ctx: &mut Ctx) {
@@ -40,6 +41,7 @@ pub fn run(ctx: &mut Ctx) {
         "C16" => c16::run_check(ctx),
         "C17" => c17::run_check(ctx),
         "C18" => c18::run_check(ctx),
+        "C19" => c19::run_check(ctx),
         "C20" => c20::run_check(ctx),
         "C13" => c12::run_check13(ctx),
         other => {
@@ -68,6 +70,7 @@ pub fn replay(ctx: &mut Ctx, case: &serde_json::Value) {
         "C16" => c16::replay(ctx, case),
         "C17" => c17::replay(ctx, case),
         "C18" => c18::replay(ctx, case),
+        "C19" => c19::replay(ctx, case),
         "C20" => c20::replay(ctx, case),
         other => {
             eprintln!("unknown property {}", other);
